@@ -311,6 +311,15 @@ func (w *World) finish(t *Task) {
 		return
 	}
 	next := w.pick(t, true)
+	for next == nil && w.OnIdle != nil {
+		w.nopreempt++
+		ok := w.OnIdle()
+		w.nopreempt--
+		if !ok {
+			break
+		}
+		next = w.pick(t, true)
+	}
 	if next == nil {
 		// nothing can run: deadlock among the remaining tasks
 		w.Fail = &Failure{Kind: FailDeadlock, Detail: w.describeBlocked(), Step: w.Steps}
